@@ -1877,9 +1877,19 @@ class MacroExpander:
                     current_arg = []
                     open_paren_count = 1
 
+                    # The variable argument is collected as a whole,
+                    # including the commas that separate its parts
+                    max_args = None
+                    if macro_lookup.variadic:
+                        max_args = len(macro_lookup.args)
+
                     while True:
                         tok = self.consume_tok()
-                        if tok.token == "," and open_paren_count == 1:
+                        if (
+                            tok.token == ","
+                            and open_paren_count == 1
+                            and (max_args is None or len(args) + 1 < max_args)
+                        ):
                             args.append(current_arg)
                             current_arg = []
                             continue
